@@ -1,5 +1,17 @@
-"""Shared by C13, C14, C15: whole-broker runs (real Engine + MemoryBackend over TCP loopback, scripted peers)."""
+"""Shared by C06, C08, C12, C13, C14, C15, C16: whole-broker runs (real Engine + MemoryBackend over TCP loopback, scripted peers).
+
+go/cmd/system <cmd> writes `scn <n> <name>`, `sys <n> <backend log line>`, `info …` and
+`direct <clause> scn=<n> ok|FAIL <detail>` lines.  Every clause is evaluated on what the peers and the recording backend
+observed of the implementation alone (no model run): a FAIL is a witnessed violation, replayable from the scenario name and
+the backend log.  Clauses judged on the backend log alone (log_unique, log_will, log_lifecycle, log_restore_first,
+log_publish_serial; go/cmd/system/judge.go) are evaluated for every scenario of every command.
+
+Timing: the harness never decides by a bare sleep; waits are bounded polls (10 s for what the broker does in milliseconds), so
+load makes a run slower, not red.  A scenario that does not finish within 240 s is reported by the harness itself
+(`scenario_completes`); a run that has failures and is slow stops early (the failures found are on file)."""
+import os
 import re
+import subprocess
 
 
 def run_sys(ck, cmd, clauses=None):
@@ -8,7 +20,13 @@ def run_sys(ck, cmd, clauses=None):
     scenario that was running."""
     if not ck.build_harness("system"):
         return None
-    path, out = ck.harness(cmd, timeout=1500)
+    out = []
+    try:
+        path, out = ck.harness(cmd, timeout=1500)
+    except subprocess.TimeoutExpired:
+        # the harness's own watchdog should have ended it long before: whatever was running hung the process
+        path = os.path.join(ck.work, cmd + ".txt")
+        ck.broken.append("harness %s crashed (timeout)" % cmd)
     try:
         ex = open(path).read().splitlines()
     except OSError:
@@ -16,7 +34,7 @@ def run_sys(ck, cmd, clauses=None):
     crashed = [b for b in ck.broken if b.startswith("harness %s crashed" % cmd)]
     if crashed:
         ck.broken = [b for b in ck.broken if b not in crashed]
-        begins = [l for l in out if l.startswith("begin ")]
+        begins = [l for l in out if l.startswith("begin ")] or [l for l in ex if l.startswith("scn ")]
         panic = [l for l in out if "panic" in l or "fatal error" in l]
         last = begins[-1] if begins else "(before the first scenario)"
         ck.fail_input("process_survives", "broker process died during scenario: %s; %s" % (last, " ".join(panic[:3])[:400]),
